@@ -47,6 +47,8 @@ Inductive sact :=
 (* server packets, as far as the receive loop distinguishes them *)
 Inductive spkt :=
 | PCont (cb : option bool) (* decoded and handled; Some ok = a user callback runs and returns nil (true) / an error *)
+| PContX                   (* decoded and handled; the user callback fails with an error that WRAPS a *ch.Exception (say, of
+                              a nested query on another connection): for the code as it is now just a failing callback *)
 | PInfo                    (* the schema block of an INSERT: the wrapped OnResult hands it to the sender *)
 | PEnd                     (* EndOfStream *)
 | PExc                     (* Exception, decoded completely *)
@@ -58,15 +60,23 @@ Record scen := {
   sc_script : list (nat * spkt);    (* (avail, packet) *)
   sc_cut : option (nat * bool);     (* stream ends after k packets; true = inside packet k *)
   sc_wfault : option (nat * bool);  (* the k-th data Write (0-based) fails; true = after a proper prefix *)
+  sc_cancel_wfault : bool;          (* the Write of the one-byte Cancel packet fails (nothing is written: a one-byte
+                                       packet has no proper prefix but the empty one) *)
+  sc_close_err : bool;              (* conn.Close closes and reports an error (crypto/tls when close_notify cannot be
+                                       sent): an environment choice NO step reads *)
 }.
 
 Record fixes := {
   fx_cancelbuf : bool;   (* de4f5b3 *)
   fx_failed : bool;      (* 899c6af: queryFailed + close on write failure *)
   fx_ctx : bool;         (* 4c3f9a3 *)
+  fx_exc_only_from_packet : bool;  (* 8cdbcdc: gotException only for an Exception PACKET of the query itself; before it,
+                                      for any error out of handlePacket that wraps a *ch.Exception *)
 }.
-Definition all_fixed := {| fx_cancelbuf := true; fx_failed := true; fx_ctx := true |}.
-Definition as_found := {| fx_cancelbuf := false; fx_failed := false; fx_ctx := false |}.
+Definition all_fixed := {| fx_cancelbuf := true; fx_failed := true; fx_ctx := true; fx_exc_only_from_packet := true |}.
+Definition as_found := {| fx_cancelbuf := false; fx_failed := false; fx_ctx := false; fx_exc_only_from_packet := false |}.
+(* the code with every repair but 8cdbcdc *)
+Definition before_8cdbcdc := {| fx_cancelbuf := true; fx_failed := true; fx_ctx := true; fx_exc_only_from_packet := false |}.
 
 (* ---------------------------------------------------------------- state *)
 
@@ -349,6 +359,10 @@ Definition step_r (fx : fixes) (sc : scen) (alt : bool) (s : st) : st :=
       match p with
       | PCont None => st_set_r (st_recv s (S (pos s)) true false false false) RTop
       | PCont (Some ok) => st_set_r (st_recv s (S (pos s)) true false false true) (RAtCb ok)
+      | PContX =>
+        (* the receiver classifies the callback's error when handlePacket returns; nobody reads gotException before the
+           receiver has left (the watcher waits for done, Do for the group), so the flag is set here, with the packet *)
+        st_set_r (st_recv s (S (pos s)) true (negb (fx_exc_only_from_packet fx)) false true) (RAtCb false)
       | PInfo => st_set_r (st_recv s (S (pos s)) true false false false) RSendInfo
       | PEnd => st_set_r (st_recv s (S (pos s)) true false true false) (RExit1 None)
       | PExc => st_set_r (st_recv s (S (pos s)) true true true false) (RExit1 (Some KExc))
@@ -372,12 +386,15 @@ Definition step_r (fx : fixes) (sc : scen) (alt : bool) (s : st) : st :=
 
 Definition cancel_toks (fx : fixes) : list wtok := if fx_cancelbuf fx then [WCancel] else [WStray; WCancel].
 
-Definition step_w (fx : fixes) (s : st) : st :=
+(* what the Write of the Cancel packet leaves on the wire *)
+Definition cancel_emit (fx : fixes) (sc : scen) : list wtok := if sc_cancel_wfault sc then [] else cancel_toks fx.
+
+Definition step_w (fx : fixes) (sc : scen) (s : st) : st :=
   match wmd s with
   | WWait => if done s then st_set_w s WWake else s
   | WWake => if cancelled s && negb (gotexc s) then st_set_w s WCancelHook else st_set_w s WSkipHook
   | WCancelHook => st_set_w s WWrite
-  | WWrite => st_set_w (if closed s then s else st_emit s (cancel_toks fx)) WClose
+  | WWrite => st_set_w (if closed s then s else st_emit s (cancel_emit fx sc)) WClose
   | WClose => st_set_w (st_close s) (WRet kctx)
   | WSkipHook => st_set_w s (WRet None)
   | WRet e => st_set_w (st_record s e) WDone
@@ -389,7 +406,7 @@ Definition all_done (s : st) : bool :=
 
 Definition add_ctx (l : list errk) : list errk := if existsb (fun k => match k with KCtx => true | _ => false end) l then l else l ++ [KCtx].
 
-Definition step_m (fx : fixes) (s : st) : st :=
+Definition step_m (fx : fixes) (sc : scen) (s : st) : st :=
   match mmd s with
   | MWait =>
     if all_done s then
@@ -405,7 +422,7 @@ Definition step_m (fx : fixes) (s : st) : st :=
         else st_set_m (st_ret s [e]) MDone
       end
     else s
-  | MCancelWrite => st_set_m (if closed s then s else st_emit s (cancel_toks fx)) MClose
+  | MCancelWrite => st_set_m (if closed s then s else st_emit s (cancel_emit fx sc)) MClose
   | MClose => st_set_m (st_close s) MDone
   | MDone => s
   end.
@@ -420,8 +437,8 @@ Definition step (fx : fixes) (sc : scen) (g : who) (alt : bool) (s : st) : st :=
   match g with
   | GS => step_s fx sc alt s
   | GR => step_r fx sc alt s
-  | GW => step_w fx s
-  | GM => step_m fx s
+  | GW => step_w fx sc s
+  | GM => step_m fx sc s
   | GEnv => step_env s
   end.
 
@@ -493,12 +510,16 @@ Fixpoint send_loop (comp gate : bool) (rounds : list cbr) : list sact :=
   | CbErr :: _ => [ACallback CbErr]
   end.
 
-Inductive qkind := QSel | QIns | QStr.
+(* QSelX: a SELECT whose external data cannot be encoded: sendQuery itself fails, after the Query packet and the
+   head of the external-data block were encoded into the writer and before anything is flushed *)
+Inductive qkind := QSel | QIns | QStr | QSelX.
 
 Definition compile (k : qkind) (comp gate : bool) (rows0 : nat) (rounds : list cbr) : list sact :=
   let head := [AClosedCheck; AEnc [EB true; EB true]; AFlush] in
   match k with
   | QSel => head ++ [AFlush]
+  | QSelX => if gate then [AClosedCheck; AEnc [EB true; EB false]; AGate; AEncFail []]   (* the failing Prepare of the column is a gate *)
+             else [AClosedCheck; AEncFail [EB true; EB false]]
   | QIns => head ++ [AWaitInfo; ACtxCheck] ++ enc_block comp gate rows0 ++ enc_blank ++ [AFlush]
   | QStr =>
     head ++ [AWaitInfo] ++
@@ -580,12 +601,14 @@ Definition hfinish (s : hst) (r : list errk) (ok : bool) : hst :=
 
 Inductive hwho := HH | HD | HK | HEnv.
 
-Definition hstep (fixed : bool) (addendum : bool) (reply : hreply) (g : hwho) (alt : bool) (s : hst) : hst :=
+(* [st1] / [st2]: an environment choice - the first (hello) / second (addendum) Write of the handshake STALLS (the peer
+   does not read) until the connection is closed; only the watchdog's Close ends such a write *)
+Definition hstep (fixed : bool) (addendum : bool) (st1 st2 : bool) (reply : hreply) (g : hwho) (alt : bool) (s : hst) : hst :=
   match g with
   | HH =>
     match hmd s with
     | H1Check => if h_gc s then hset_h s (HRet kctx) else hset_h s H1Write
-    | H1Write => if h_closed s then hset_h s (HRet (Some KIO)) else hset_h s HRead
+    | H1Write => if h_closed s then hset_h s (HRet (Some KIO)) else if st1 then s (* stalled *) else hset_h s HRead
     | HRead =>
       if h_closed s then hset_h s (HRet (Some KIO))
       else if alt then hset_h s (HRet (Some KIO))          (* the read deadline fires *)
@@ -596,7 +619,7 @@ Definition hstep (fixed : bool) (addendum : bool) (reply : hreply) (g : hwho) (a
            | HrEof => hset_h s (HRet (Some KIO))
            end
     | H2Check => if h_gc s then hset_h s (HRet kctx) else hset_h s H2Write
-    | H2Write => if h_closed s then hset_h s (HRet (Some KIO)) else hset_h s (HRet None)
+    | H2Write => if h_closed s then hset_h s (HRet (Some KIO)) else if st2 then s (* stalled *) else hset_h s (HRet None)
     | HRet e =>   (* deferred cancel() of handshakeCtx *)
       {| h_pc := h_pc s; h_gc := h_gc s; h_hdone := true; h_closed := h_closed s; h_ncl := h_ncl s; h_err1 := h_err1 s;
          h_ret := h_ret s; h_ok := h_ok s; hmd := HRec e; dmd := dmd s; kmd := kmd s |}
@@ -642,10 +665,10 @@ Definition hstep (fixed : bool) (addendum : bool) (reply : hreply) (g : hwho) (a
     end
   end.
 
-Fixpoint hrun (fixed addendum : bool) (reply : hreply) (sched : list (hwho * bool)) (s : hst) : hst :=
+Fixpoint hrun (fixed addendum : bool) (st1 st2 : bool) (reply : hreply) (sched : list (hwho * bool)) (s : hst) : hst :=
   match sched with
   | [] => s
-  | (g, alt) :: r => hrun fixed addendum reply r (hstep fixed addendum reply g alt s)
+  | (g, alt) :: r => hrun fixed addendum st1 st2 reply r (hstep fixed addendum st1 st2 reply g alt s)
   end.
 
 Definition hterminal (s : hst) : bool := match kmd s with KDone => true | _ => false end.
